@@ -14,6 +14,7 @@ Local variable names are followed by role (taken from the assignment targets), n
 import ast
 
 from . import common as T
+from . import c01b as TB
 from ..core import TranslationError
 
 SURF = "mouette/mesh/datatypes/surface.py"
@@ -513,6 +514,20 @@ def tr_sort(rel, fn):
     sorts = [n for n in ast.walk(body[0]) if isinstance(n, ast.Call) and isinstance(n.func, ast.Attribute) and n.func.attr == "sort"]
     if len(sorts) != 2:
         T.fail(rel, fn, "expected exactly two .sort(key=...) calls")
+    sorted_tables = []
+    for sc in sorts:
+        if sc.args or [k.arg for k in sc.keywords] != ["key"]:
+            T.fail(rel, sc, ".sort(...) takes anything but exactly `key=` (e.g. reverse=)")
+        lam = sc.keywords[0].value
+        ok = isinstance(lam, ast.Lambda) and len(lam.args.args) == 1 and isinstance(lam.body, ast.Subscript) \
+            and isinstance(lam.body.value, ast.Name) and isinstance(subscript_index(lam.body), ast.Name) \
+            and subscript_index(lam.body).id == lam.args.args[0].arg
+        tgt = sc.func.value
+        ok = ok and isinstance(tgt, ast.Subscript) and self_attr(tgt.value) in ("_adjV2Cn", "_adjV2V") \
+            and isinstance(subscript_index(tgt), ast.Name) and subscript_index(tgt).id == vA
+        if not ok:
+            T.fail(rel, sc, "sort is not self._adjV2Cn[A].sort(key = lambda c : <index dict>[c]) / self._adjV2V[A].sort(...)")
+        sorted_tables.append((self_attr(tgt.value), lam.body.value.id))
     vloop = loops[1]
     vv = vloop.target.id
     ok = len(vloop.body) == 1 and isinstance(vloop.body[0], ast.Assign) and isinstance(vloop.body[0].value, ast.Call) \
@@ -526,6 +541,13 @@ def tr_sort(rel, fn):
             and T.dotted(d.operand.func) == "float" and d.operand.args[0].value == "inf"
     if not ok:
         T.fail(rel, vloop, "vertex key is not sort_index.get(self.half_edge_to_corner(A,v), -float('inf'))")
+    # the corner sort is keyed by the walk's index dict, the vertex sort by the dict the key loop fills, at key v
+    kt = vloop.body[0].targets[0]
+    if not (isinstance(kt, ast.Subscript) and isinstance(kt.value, ast.Name) and isinstance(subscript_index(kt), ast.Name)
+            and subscript_index(kt).id == vv):
+        T.fail(rel, vloop, "vertex key is not stored at sort_indexV[v]")
+    if sorted(sorted_tables) != sorted([("_adjV2Cn", si), ("_adjV2V", kt.value.id)]):
+        T.fail(rel, fn, "the two sorts are not keyed by the corner index dict / the vertex key dict")
     roles = {vA: "A", vv: "v"}
     if not all(isinstance(x, ast.Name) and x.id in roles for x in c.args):
         T.fail(rel, c, "half_edge_to_corner arguments in the vertex key")
@@ -700,6 +722,10 @@ def gen():
     parts.append(("SurfaceMesh.is_edge_on_border", T.sha(ssrc, bfn)))
     L.append("\n(* SurfaceMesh.is_edge_on_border over eid = edge_id(u,v), duv = direct_face(u,v), dvu = direct_face(v,u) *)")
     L.append("Definition edge_on_border_expr (eid duv dvu : option Z) : bool :=\n  %s." % tr_is_edge_on_border(SURF, bfn))
+
+    L += TB.gen_linear(LIN, ltree, rests)
+    L += TB.gen_surface(SURF, stree, rests)
+    L += TB.gen_border(SURF, stree)
 
     out = T.header("C01: lazy guards, half-edge record layout, slots, walk steps, border predicate "
                    "(surface.py, linear.py)", parts)
